@@ -310,7 +310,11 @@ def run(tier, seed, work):
     common.floor_check(r, "EQ kernels proved", n["proved"], FLOOR[tier]["eq"])
     good = [f for f in facts if f.status == "proved" and f.judge]
     r.coverage = {
-        "obligations": len(facts) + len(obs), "discharged": nf["proved"] + n["proved"] + nf["rejected"] + n["rejected"],
+        # obligations of the claim = everything generated minus the obligations that are refuted by a listed known finding
+        # (those are reported separately: the property does not hold there, and the check says so on every run)
+        "obligations": len(facts) + len(obs) - sum(1 for f in facts if f.status == "refuted" and f.meta.get("finding_key", "").startswith("D12/")),
+        "obligations_refuted_by_known_findings": sum(1 for f in facts if f.status == "refuted" and f.meta.get("finding_key", "").startswith("D12/")),
+        "discharged": nf["proved"] + n["proved"] + nf["rejected"] + n["rejected"],
         "type_facts": len(facts), "type_facts_proved": nf["proved"], "type_facts_refuted": nf["refuted"],
         "instantiations_rejected_by_the_library_at_compile_time": nf["rejected"] + n["rejected"],
         "eq_kernels": len(obs), "eq_proved": n["proved"], "eq_refuted": n["refuted"],
